@@ -267,6 +267,12 @@ static void build_policies(void) {
 		if (KSI_Policy_setFallback(ctx, g_pol[p], g_pol[p + 1]) != KSI_OK) vf_harness_error("KSI_Policy_setFallback failed");
 	g_clone = NULL;
 	if (KSI_Policy_clone(ctx, g_pol[0], &g_clone) != KSI_OK || g_clone == NULL) vf_harness_error("KSI_Policy_clone failed");
+	/* calls that are refused leave the chain as it is: no fallback given, and a fallback for no policy */
+	for (p = 0; p < g_npol; p++) {
+		if (KSI_Policy_setFallback(ctx, g_pol[p], NULL) == KSI_OK) vf_outcome("setFallback(NULL):accepted"); else vf_outcome("setFallback(NULL):refused");
+		KSI_Policy_setFallback(ctx, NULL, g_pol[p]);
+	}
+	if (KSI_Policy_setFallback(ctx, g_clone, NULL) == KSI_OK) vf_outcome("setFallback(NULL):accepted");
 	g_entry = g_pol[0];
 }
 static void free_policies(void) {
